@@ -101,11 +101,13 @@ def columnsLayout (v : Variant) (o : ColumnsOpts) (measured : List Int) (maxWidt
       let count : Except PyErr Nat :=
         match o.width with
         | some cwid =>
-          if cwid + widthPadding == 0 then .error .zeroDivision
+          if v.columnsZeroCount then
+            -- today: `max_width // (width + padding)` — raises for a zero divisor, may be 0 columns
+            if cwid + widthPadding == 0 then .error .zeroDivision
+            else .ok (maxWidth / (cwid + widthPadding)).toNat
           else
-            -- today: `max_width // (width + padding)`; repaired: `max(1, …)`
-            .ok (if v.columnsZeroCount then (maxWidth / (cwid + widthPadding)).toNat
-                 else max 1 (maxWidth / (cwid + widthPadding)).toNat)
+            -- repaired: `max(1, max_width // max(1, width + padding))`
+            .ok (max 1 (maxWidth / (max 1 (cwid + widthPadding))).toNat)
         | none => .ok (searchLoop o.columnFirst widths widthPadding maxWidth (n + 1) n)
       match count with
       | .error e => .error e
